@@ -123,6 +123,14 @@ def case_scale_free(ctx, rng, idx):
     elif variant == "shuffles":
         kw["num_shuffles"] = rng.randint(1, 5)
     shared_by, shared_scale = dict(by), dict(scale)  # one parameter object reused over the realisations, as callers do
+    if len(sizes) >= 2 and rng.random() < 0.5:
+        # the two mappings are keyed by size; nothing says they must list the sizes in the same order
+        ks = list(scale)
+        rng.shuffle(ks)
+        shared_scale = {k_: scale[k_] for k_ in ks}
+        ks = list(by)
+        rng.shuffle(ks)
+        shared_by = {k_: by[k_] for k_ in ks}
     for seed in (rng.randrange(10**6), rng.randrange(10**6), rng.randrange(10**6)):
         def wit(extra=None):
             return {"fn": "scale_free_hypergraph", "n": n, "edges_by_size": by, "scale_by_size": scale, "kwargs": kw, "numpy_seed": seed, "extra": repr(extra)[:600]}
@@ -261,6 +269,8 @@ def case_shuffle(ctx, rng, idx):
     size = rng.choice(sizes + [max(sizes) + 1])
     p = rng.choice([0, 0.0, 0.3, 0.5, 1.0, 1])
     inplace = rng.random() < 0.5
+    if rng.random() < 0.25:
+        inplace = np.bool_(inplace)  # a flag that comes out of a NumPy comparison: equal to True / False, not identical to them
     preserve = rng.random() < 0.3
     as_order = rng.random() < 0.5
     code = gr.random_shuffle.__code__
@@ -277,7 +287,7 @@ def case_shuffle(ctx, rng, idx):
 
         def wit(extra=None):
             return {"fn": "random_shuffle_all_orders" if all_orders else "random_shuffle", "object": S0.describe(), "size": None if all_orders else size,
-                    "p": p, "inplace": inplace, "preserve_degree": preserve, "seed": seed, "extra": repr(extra)[:700]}
+                    "p": p, "inplace": repr(inplace), "preserve_degree": preserve, "seed": seed, "extra": repr(extra)[:700]}
 
         pyrandom.seed(rng.randrange(10**6))
         if seed is None:
